@@ -321,6 +321,8 @@ class CoThread(object):
         pass
 
     def start(self):
+        if self._started:
+            raise RuntimeError('threads can only be started once')
         self._started = True
         SCHED.spawn(self.name, self._target, self._args)
         s = SCHED
